@@ -339,6 +339,34 @@ class LetChain(Rewrite):
         return text
 
 
+class ReplaceRange(Rewrite):
+    """R-payload: the token range from the first `start` (after the previous replacement) to the next `end` is replaced by `new`.
+    Used to abstract a branch's payload (what a branch DOES) to a trace event so that only the gating control flow is verified."""
+    rule = 'R-payload'
+    def __init__(self, ranges, rule='R-payload'):
+        self.ranges, self.rule = ranges, rule     # [(start_pat, end_pat, new)]
+    def apply(self, text, log):
+        pos_tok = 0
+        n = 0
+        for start, end, new in self.ranges:
+            toks = code_tokens(text)
+            # resume after the character offset of the previous replacement
+            lo = 0
+            while lo < len(toks) and toks[lo].start < pos_tok: lo += 1
+            hs = find_seq(toks, pat_tokens(start), lo)
+            if not hs:
+                raise AnchorLost(f'{self.rule}: payload start `{start}` not found')
+            he = find_seq(toks, pat_tokens(end), hs[0][0])
+            if not he:
+                raise AnchorLost(f'{self.rule}: payload end `{end}` not found')
+            a, b = toks[hs[0][0]].start, toks[he[0][1] - 1].end
+            text = text[:a] + new + text[b:]
+            pos_tok = a + len(new)
+            n += 1
+        log.append((self.rule, 'branch payloads abstracted to trace events', n))
+        return text
+
+
 class DropNestedFn(Rewrite):
     """Remove a nested `fn name` item from a body (it is extracted separately, hoisted)."""
     rule = 'R-hoist'
@@ -462,7 +490,7 @@ class Unit:
             raise AnchorLost(f'file missing: {file}')
         return open(p, encoding='utf-8').read()
 
-    def extract_type(self, file, path, rewrites=(), label=None, post=None, keep_derives=()):
+    def extract_type(self, file, path, rewrites=(), label=None, post=None, keep_derives=(), structural=False):
         """Copy a struct/enum definition (attributes and comments stripped; `keep_derives` are re-attached
         only if the real item derives them)."""
         it = locate(self._read(file), path)
@@ -473,7 +501,8 @@ class Unit:
             for d in keep_derives:
                 if not re.search(r'derive\([^)]*\b' + d + r'\b', head):
                     raise AnchorLost(f'{file}::{"::".join(path)} no longer derives {d}')
-            text = '#[derive(' + ', '.join(keep_derives) + ')]\n' + text
+            # structural=True: Verus' marker that the (derived) PartialEq is structural equality -- true of every #[derive(PartialEq)]
+            text = '#[derive(' + ', '.join(list(keep_derives) + (['Structural'] if structural and 'PartialEq' in keep_derives else [])) + ')]\n' + text
             log.append(('R-attr', 'derives kept: ' + ', '.join(keep_derives), len(keep_derives)))
         label = label or f'{file}::{"::".join(path)}'
         c = Chunk('real', label, meta=dict(file=file, line=it.line, kind=it.kind))
